@@ -50,7 +50,7 @@ CONSTANTS
   Plain = {"E", "N"}
   MaxDepth = 4
   MaxOps = 4
-  MaxTokens = 24
+  MaxTokens = 26
   Alphabet = "rich"
   MaxLvl = 5
   GenMode = "leaf"
@@ -103,6 +103,69 @@ GIVEN = [
     [C("CALL", "A"), C("CALL", "B", 0), S(1, 1), E("INVALID"), C("CALL", "B", 1), S(1, 2), L, E("STOP"), E("STOP")],
     [C("CALL", "A"), K("CREATE", 1), C("CALL", "B", 0), S(1, 1), E("STOP"), S(1, 1), E("RETURN"), X("N", 1), E("STOP")],
 ]
+
+def P(kind, to, val=0, gas="all", inp="good"):
+    return {"t": "PRE", "kind": kind, "to": to, "val": val, "gas": gas, "inp": inp}
+
+
+def Bop(of, ar):
+    return {"t": "BALOP", "of": of, "ar": ar}
+
+
+def precompile_programs():
+    """Every precompiled contract (0x01..0x08) called with every call kind, with and without value, with accepted and
+    (bn256 operations) rejected input; beneath a STATICCALL; inside a frame that reverts; with one unit of gas.  The
+    gas sweep then tries the amounts around the gas the precompile requires."""
+    out = []
+    for i in range(1, 9):
+        to = "P%d" % i
+        inps = ["good", "bad"] if i >= 6 else ["good"]
+        for inp in inps:
+            for kind in ("CALL", "CALLCODE", "DELEGATECALL", "STATICCALL"):
+                for val in ((0, 1) if kind in ("CALL", "CALLCODE") else (0,)):
+                    out.append([C("CALL", "A"), S(1, 1), P(kind, to, val, "all", inp), S(2, 2), E("STOP")])
+            out.append([C("CALL", "A"), C("CALL", "B"), S(1, 1), P("CALL", to, 1, "all", inp), E("REVERT"), L, E("STOP")])
+            out.append([C("CALL", "B", 1), C("CALLCODE", "C", 1), P("CALL", to, 1, "all", inp), L, E("STOP"), E("STOP")])
+        for kind in ("CALL", "STATICCALL"):
+            out.append([C("CALL", "A"), C("STATICCALL", "B"), P(kind, to, 0), E("STOP"), S(1, 1), E("STOP")])
+        out.append([C("CALL", "A"), C("STATICCALL", "B"), P("CALL", to, 1), E("STOP"), S(1, 1), E("STOP")])
+        out.append([C("CALL", "A"), P("CALL", to, 0, "one"), P("CALL", to, 1), P("CALL", to, 1), P("CALL", to, 1), E("STOP")])
+    return out
+
+
+# SELFBALANCE / BALANCE followed by arithmetic and stack recycling in frames of every kind: reading a balance changes nothing
+BALOPS = [
+    [C("CALL", "A", 1), Bop("SELF", "ADD"), S(1, 1), E("STOP")],
+    [C("CALL", "A"), Bop("SELF", "MUL"), X("E", 1), E("STOP")],
+    [C("CALL", "A"), Bop("SELF", "POP"), L, E("RETURN")],
+    [C("CALL", "A"), Bop("A", "ADD"), Bop("A", "MUL"), Bop("A", "POP"), E("STOP")],
+    [C("CALL", "A"), C("STATICCALL", "B"), Bop("SELF", "ADD"), E("STOP"), E("STOP")],
+    [C("CALL", "A"), C("STATICCALL", "B"), Bop("SELF", "MUL"), E("STOP"), E("STOP")],
+    [C("CALL", "A"), C("STATICCALL", "B"), Bop("SELF", "POP"), C("CALL", "C"), Bop("SELF", "ADD"), E("STOP"), E("STOP"), E("STOP")],
+    [C("CALL", "A"), C("CALL", "B", 1), Bop("SELF", "MUL"), S(1, 1), E("INVALID"), E("STOP")],
+    [C("CALL", "A"), C("CALL", "B", 1), Bop("SELF", "ADD"), S(1, 1), E("REVERT"), L, E("STOP")],
+    [C("CALL", "A"), C("DELEGATECALL", "B"), Bop("SELF", "ADD"), E("STOP"), Bop("SELF", "POP"), E("STOP")],
+    [C("CALL", "A"), C("CALLCODE", "B", 1), Bop("SELF", "MUL"), E("STOP"), E("STOP")],
+    [C("CALL", "A"), K("CREATE", 1), Bop("SELF", "ADD"), E("RETURN"), Bop("SELF", "MUL"), E("STOP")],
+    [C("CALL", "A"), K("CREATE2", 1), Bop("SELF", "POP"), S(1, 1), E("STOP"), E("STOP")],
+    [C("CALL", "B", 1), Bop("SELF", "ADD"), C("CALL", "A", 1), Bop("SELF", "MUL"), E("STOP"), Bop("SELF", "POP"), E("SELFDESTRUCT", "E")],
+]
+
+def stale_storage_programs():
+    """A slot that holds a value from an earlier transaction is cleared / rewritten by the outer frame; a nested frame
+    in the same storage context (DELEGATECALL, CALLCODE, re-entrant CALL) writes it again and fails: the slot must read
+    what the outer frame stored."""
+    out = []
+    for ctx, slot, other in (("A", 1, "B"), ("B", 2, "C"), ("C", 1, "A"), ("C", 2, "B")):
+        for first in (0, 3, 1):
+            for how in ("INVALID", "REVERT", "OOG"):
+                out.append([C("CALL", ctx), S(slot, first), C("DELEGATECALL", other), S(slot, 2), E(how), E("STOP")])
+                out.append([C("CALL", ctx), S(slot, first), C("CALLCODE", other), S(slot, 2), S(slot, 0), E(how), L, E("STOP")])
+                out.append([C("CALL", ctx), S(slot, first), C("CALL", other), C("CALL", ctx), S(slot, 2), E(how), E("STOP"), E("STOP")])
+            out.append([C("CALL", ctx), S(slot, first), C("CALL", other), C("CALL", ctx), S(slot, 2), E("STOP"), E("INVALID"), E("STOP")])
+            out.append([C("CALL", ctx), C("DELEGATECALL", other), S(slot, first), C("DELEGATECALL", ctx), S(slot, 1), E("INVALID"), E("STOP"), E("STOP")])
+    return out
+
 
 FAIL_VARIANTS = ["INVALID", "UNDEFINED", "UNDERFLOW", "BADJUMP"]
 OOG_VARIANTS = ["OOG", "OOGCOPY"]
@@ -168,13 +231,21 @@ def generate(ctx):
         rng.shuffle(sim)
         behs += sim[:(1200 if quick else 15000)]
     # hand-written nested programs, executed by the model for their predictions
+    stale = stale_storage_programs()
+    hand = [(p, 3) for p in GIVEN] + [(p, 1) for p in precompile_programs()] + [(p, 0) for p in BALOPS] + [(p, 0) for p in stale]
+    both = {json.dumps(p, sort_keys=True) for p in stale}
     gv = ctx.tlc_must("EvmFrames", GIVEN_CFG, name="G_given", timeout=600, count=False,
-                      files={"given.ndjson": "\n".join(json.dumps({"prog": p}) for p in GIVEN) + "\n"})
+                      files={"given.ndjson": "\n".join(json.dumps({"prog": p}) for p, _ in hand) + "\n"})
     if gv.violated:
         raise vlib.Undecided("EvmFrames design model violates %s on a hand-written program (%s)" % (gv.violated, gv.dir))
     given = behaviours_of(gv)
-    if len({key(b) for b in given}) != len(GIVEN):
-        raise vlib.Undecided("the model executed %d of %d hand-written programs (%s)" % (len(given), len(GIVEN), gv.dir))
+    want = {json.dumps(p, sort_keys=True): n for p, n in hand}
+    if {key(b) for b in given} != set(want):
+        raise vlib.Undecided("the model executed %d of %d hand-written programs (%s)" % (len(given), len(want), gv.dir))
+    for b in given:
+        b["sweep"] = want[key(b)]
+        if key(b) in both:
+            b["both"] = True
     behs = behs[:nw] + given + behs[nw:]
     ngiven = len(given)
     # distinct programs only; alternate the set-up; vary the concrete form of failing endings
@@ -195,17 +266,19 @@ def generate(ctx):
                     t["v"] = rng.choice(FAIL_VARIANTS)
                 elif t["t"] == "END" and t["how"] == "OOG":
                     t["v"] = rng.choice(OOG_VARIANTS)
+    # the stale-storage programs run in both set-ups (committed storage / storage finalised by the earlier transaction)
+    for b in [b for b in out if b.pop("both", False)]:
+        out.append(dict(b, setup="second" if b["setup"] == "fresh" else "fresh"))
     # gas sweeps: the hand-written programs, and generated programs with a creation or a value call into storing code
     def sweepable(b):
         toks = b["prog"]
-        return (any(t["t"] == "CREATE" for t in toks) or
+        return (any(t["t"] in ("CREATE", "PRE") for t in toks) or
                 (any(t["t"] == "CALL" and t.get("val") == 1 for t in toks[1:]) and any(t["t"] == "SSTORE" for t in toks)))
     cand = [b for b in out[nw + ngiven:] if sweepable(b)]
     rng.shuffle(cand)
-    nsweep = 0
-    for b in out[nw:nw + ngiven] + cand[:(90 if quick else 1200)]:
+    for b in cand[:(90 if quick else 1200)]:
         b["sweep"] = 3
-        nsweep += 1
+    nsweep = sum(1 for b in out if b.get("sweep"))
     ctx.note("programs: %d witnesses, %d hand-written, %d of %d bounded-exhaustive (tiny library), %d simulated; %d distinct; "
              "%d with gas sweeps" % (nw, ngiven, n1 - nw, len(g1), len(behs) - n1 - ngiven, len(out), nsweep))
     return out
